@@ -193,6 +193,7 @@ pub enum Cmd {
     ClearDef,
     New(usize, ParentKind),
     Drop(Span),
+    DropUnwind(Span),
     DropTrace(SpanTrace),
     Enter(Dispatch, span::Id),
     Exit(Dispatch, span::Id),
@@ -251,6 +252,14 @@ pub fn spawn_worker(t: i32) -> Worker {
                 Cmd::New(slot, pk) => Reply::Span(make_span(slot, pk)),
                 Cmd::Drop(s) => {
                     drop(s);
+                    Reply::Done
+                }
+                Cmd::DropUnwind(s) => {
+                    // the handle is owned by a frame that unwinds (no panic hook output)
+                    let _ = std::panic::catch_unwind(std::panic::AssertUnwindSafe(move || {
+                        let _held = s;
+                        std::panic::resume_unwind(Box::new("scripted panic inside the span"));
+                    }));
                     Reply::Done
                 }
                 Cmd::DropTrace(s) => {
